@@ -14,7 +14,11 @@ RULE = ("Engine K as C12 with consumer scripts biased to stalls (short, long, re
         "holds < capacity items and it is accumulating or not stalled; the head is offered when its front reaches the "
         "end), co-simulated with the same producer/consumer scripts. Compared per item: admission instant and offer instant; "
         "only the first deviation of a run is classified (conveyor kind, accumulating, admit|offer, early|late, structural "
-        "flag). Non-trivial: a stall happened while another item was on the belt or an admission request was pending.")
+        "flag). In three of eight cases the destination does not simply take the head at the grant instant: it holds the granted "
+        "retrieval for a collection time (the head keeps waiting at the exit: the belt stays stopped until it is collected; deviations "
+        "after such a hold carry the flag held_retrieval), or it withdraws the granted retrieval zero to two kernel hops after "
+        "the grant (what a FIRST_AVAILABLE fan-in node does to the edges it did not pick; the head then waits unreserved) and "
+        "asks again later. Non-trivial: a stall happened while another item was on the belt or an admission request was pending.")
 ASSUMPTIONS = ["the consumer gets at the grant instant and the producer puts at the grant instant (as every library node does)",
                "times compared with 1e-9 relative tolerance",
                "slotted conveyor = continuous model with item length 1 slot, length capacity slots, speed 1/delay"]
@@ -25,7 +29,7 @@ def examples(tier):
 
 
 def strategy(tier):
-    return gen_conv.cases(nice_only=True)
+    return gen_conv.cases(nice_only=True, cholds=True)
 
 
 shrink_candidates = gen_conv.shrink_candidates
@@ -39,7 +43,8 @@ def model_for(case, admit_first=()):
     else:
         L, il, v = float(c["capacity"]), 1.0, 1.0 / c["delay"]
         cap = c["capacity"]
-    return simulate(L, il, v, cap, bool(c.get("acc", 1)), case["producer"], case["consumer"], case.get("T", 400.0), admit_first)
+    return simulate(L, il, v, cap, bool(c.get("acc", 1)), case["producer"], case["consumer"], case.get("T", 400.0), admit_first,
+                    chold=case.get("chold"), ccancel=case.get("ccancel"))
 
 
 def compare(case, r, m):
@@ -138,6 +143,9 @@ def run_case(case):
 
 def structural_flag(case, r, m, d):
     t, what, direction, i, a, b = d
+    # a retrieval that was granted and is collected only later (model or implementation) began before the deviation
+    if any(h <= t + 1e-9 for h in list(m.get("held", ())) + list(getattr(r, "t_grant_get", ()))):
+        return "held_retrieval"
     if not m["stall"]:
         return "no_stall"
     # was the belt stalled (an offered item waiting) in the model at time t?
